@@ -143,8 +143,9 @@ def tokenize_machine(ctx, N, bytes_=None, extra_stubs=None):
     }
     if extra_stubs: stubs.update(extra_stubs)
     M = Machine(P, stubs=stubs)
-    valid, _ = utf8_valid(b)
-    M.base_constraints = [valid]
+    if all(isinstance(x, int) for x in b): M.base_constraints = []
+    else:
+        valid, _ = utf8_valid([x if not isinstance(x, int) else z3.BitVecVal(x, 8) for x in b]); M.base_constraints = [valid]
     def entry(M):
         src = Ref(Cell(Str(list(b))))
         return M.call_fn(key, [src, Ref(Cell(Agg('FileId', [Str('f.st')])))])
@@ -152,3 +153,43 @@ def tokenize_machine(ctx, N, bytes_=None, extra_stubs=None):
 
 STUB_NOTES = ['logos::Lexer::{next,span,slice} supplied by the lifted lexer model (MIR of the generated state machine)',
               '<TokenType as Clone>::clone = identity (derived Clone of a fieldless enum)', 'format!/fmt::Arguments opaque']
+
+
+# ------------------------------------------------------------------ concrete parse through the interpreter (AST builder + translator validation)
+def parse_concrete(ctx, text, file_id='f.st'):
+    """Run the real front end (lifted lexer -> lexer::tokenize -> xform_tokens -> peg parse_library -> xform_assign_file_id)
+    on concrete source text inside the interpreter and return the Library value (an Agg tree). Raises Unsupported on failure."""
+    P = ctx.program()
+    data = text.encode()
+    M, entry, b, L, toks, LM = tokenize_machine(ctx, len(data), bytes_=list(data))
+    k_x = P.find_fn('ironplc-parser', 'xform_tokens::insert_keyword_statement_terminators')
+    k_p = P.find_fn('ironplc-parser', 'parser::parse_library')
+    k_f = P.find_fn('ironplc-parser', 'xform_assign_file_id::apply')
+    def run(M):
+        fid = Ref(Cell(Agg('FileId', [Str(file_id)])))
+        r = M.call_fn(M.prog.find_fn('ironplc-parser', 'lexer::tokenize'), [Ref(Cell(Str(list(data)))), fid])
+        if r.f[1].items: raise Unsupported('lexical error in builder text')
+        tokens = M.call_fn(k_x, [r.f[0], fid])
+        lib = M.call_fn(k_p, [tokens])
+        if lib.disc != 0: raise Unsupported('builder text does not parse: %r' % (lib,))
+        out = M.call_fn(k_f, [Agg('Library', [lib.f[0]]), fid])
+        if out.disc != 0: raise Unsupported('file id assignment failed')
+        return out.f[0]
+    res = M.explore(run)
+    if len(res) != 1 or res[0].inconclusive or res[0].panic:
+        raise Unsupported('concrete parse failed: %s' % (res[0].inconclusive or res[0].panic if res else 'no path'))
+    return res[0].result, M
+
+def subst_names(v, mapping):
+    """replace identifier spellings in an AST value: mapping lower-case name -> replacement value factory(orig Str) -> value"""
+    from mirsym.machine import Agg as _A, EnumV as _E, VecV as _V, Ref as _R, Str as _S
+    if isinstance(v, _S):
+        c = v.conc()
+        if c is not None and c.lower() in mapping: return mapping[c.lower()](v)
+        return v
+    if isinstance(v, (_A, _E)): v.f = [subst_names(x, mapping) for x in v.f]; return v
+    if isinstance(v, _V): v.items = [subst_names(x, mapping) for x in v.items]; return v
+    if isinstance(v, _R):
+        if not v.path: v.cell.v = subst_names(v.cell.v, mapping)
+        return v
+    return v
